@@ -36,12 +36,21 @@ def clause_key(name):
     return re.sub(r"/(path|site)\d+$", "", name)
 
 
+BASELINE_INFO = {}
+
+
 def load_baseline(pid):
     p = os.path.join(ROOT, "baseline", pid + ".json")
     if not os.path.exists(p):
         return None
     with open(p) as f:
-        return set(json.load(f)["proved_clauses"])
+        d = json.load(f)
+    BASELINE_INFO[pid] = d.get("slow_clauses", {})
+    return set(d["proved_clauses"])
+
+
+SCRATCH = bool(os.environ.get("VERIF_REPO")) and os.path.realpath(os.environ["VERIF_REPO"]) != "/repo"
+OUT_ROOT = os.path.join(ROOT, "build", "scratch-run") if SCRATCH else ROOT
 
 
 def load_known_findings():
@@ -68,25 +77,45 @@ def run_property(pid, tier, seed):
         obls += extra
     # generous budgets: proofs on the unchanged tree take milliseconds to a few seconds; the budget only
     # matters for obligations that fail, and must leave headroom on slower / busier machines
-    timeout = 60000 if tier == "quick" else 180000
+    timeout = int(os.environ.get("VERIF_TIMEOUT_MS", "60000" if tier == "quick" else "180000"))
     stats = {}
     results = solve.discharge(obls, timeout_ms=timeout, stats=stats)
     if os.environ.get("VERIF_RECORD_BASELINE"):
         os.makedirs(os.path.join(ROOT, "baseline"), exist_ok=True)
-        proved = {}
+        proved, slow = {}, {}
         for r in results:
             if r.ob.kind == "assert":
                 k = clause_key(r.ob.name)
                 proved[k] = proved.get(k, True) and r.status == "proved"
+                if r.secs > 2.0 and not r.backend.endswith("(cached)"):
+                    slow[k] = {"backend": r.backend, "ms": max(int(r.secs * 1000), slow.get(k, {}).get("ms", 0))}
+        old = {}
+        try:
+            old = json.load(open(os.path.join(ROOT, "baseline", pid + ".json"))).get("slow_clauses", {})
+        except Exception:
+            pass
+        for k, v in old.items():        # verdicts served from the cache carry no timing: keep what was measured before
+            slow.setdefault(k, v)
         with open(os.path.join(ROOT, "baseline", pid + ".json"), "w") as f:
-            json.dump({"property": pid, "proved_clauses": sorted(k for k, v in proved.items() if v)}, f, indent=0)
+            json.dump({"property": pid, "proved_clauses": sorted(k for k, v in proved.items() if v),
+                       "slow_clauses": {k: slow[k] for k in sorted(slow) if proved.get(k)}}, f, indent=0)
     baseline = load_baseline(pid)
     # obligations that were discharged on the unchanged tree but came back 'unknown': one more attempt with a
     # much larger budget before they are treated as failed (a verdict must not flip because the machine is slow)
     if baseline is not None:
         retry = [i for i, r in enumerate(results) if r.status == "unknown" and clause_key(r.ob.name) in baseline]
         if retry:
-            again = solve.discharge([results[i].ob for i in retry], timeout_ms=max(4 * timeout, 240000))
+            # budget per obligation: at least 2 minutes and at least 10x what the proof took when the baseline was
+            # recorded, starting with the back end that found the proof then
+            floor = int(os.environ.get("VERIF_RETRY_MS", "120000"))
+            for i in retry:
+                rec = BASELINE_INFO.get(pid, {}).get(clause_key(results[i].ob.name))
+                info = dict(results[i].ob.info or {})
+                info["timeout_ms"] = max(floor, 10 * rec["ms"]) if rec else floor
+                if rec and rec["backend"].startswith("cvc5"):
+                    info["prefer"] = "cvc5"
+                results[i].ob.info = info
+            again = solve.discharge([results[i].ob for i in retry], timeout_ms=floor)
             for i, r2 in zip(retry, again):
                 r2.secs += results[i].secs
                 results[i] = r2
@@ -132,7 +161,7 @@ def run_property(pid, tier, seed):
         functions.append({"target": driver.contract_name(c), "file": "python/gtirb/" + fi.file,
                           "lines": list(fi.lines), "ast_sha256_16": fi.ast_hash(), "obligations": len(ob)})
     exit_code = 0
-    replay_dir = os.path.join(ROOT, "replays", pid)
+    replay_dir = os.path.join(OUT_ROOT, "replays", pid)
     lines = []
     for r in violations:
         os.makedirs(replay_dir, exist_ok=True)
@@ -239,6 +268,8 @@ def run_property(pid, tier, seed):
             "known_findings_reproduced": [k["id"] for k, _ in known_hit] + [p["id"] for p in probed if p["manifests"]],
             "known_finding_probes": probed,
             "bounded_standins": bounded,
+            "assumed_contracts": [{"target": driver.contract_name(c), "what": (c.__doc__ or "").strip().split("\n\n")[0]}
+                                  for c in reg.contracts if getattr(c, "assumed", False)],
             "extraction_drops": EXTRACTION_DROPS,
             "explanation": meta.get("explanation", ""),
             "evaluations": len(asserts) + sum(b.get("evaluations", 0) for b in bounded),
@@ -250,8 +281,8 @@ def run_property(pid, tier, seed):
         "wall_s": round(wall, 2),
         "violations": len(violations) + len(b_viol),
     }
-    os.makedirs(os.path.join(ROOT, "evidence"), exist_ok=True)
-    with open(os.path.join(ROOT, "evidence", pid + ".json"), "w") as f:
+    os.makedirs(os.path.join(OUT_ROOT, "evidence"), exist_ok=True)
+    with open(os.path.join(OUT_ROOT, "evidence", pid + ".json"), "w") as f:
         json.dump(ev, f, indent=1, default=str)
     print("%s: %d/%d obligations discharged, %d covers ok, %d bounded stand-ins, %d known findings, %.1fs, exit %d"
           % (pid, discharged, len(asserts), ev["coverage"]["covers"]["satisfiable"], len(bounded), len(known_hit),
